@@ -128,7 +128,7 @@ class CorrelationRemover(TransformerMixin, BaseEstimator):
         """Transform X by applying the correlation remover."""
         check_is_fitted(self, ["beta_", "_n_features_in_", "lookup_", "sensitive_mean_"])
 
-        X = validate_data(self, X)
+        X = validate_data(self, X, reset=False)
         if self._n_features_in_ != X.shape[1]:
             raise ValueError(
                 "X has %d features, but %s is expecting %d features as input"
